@@ -120,6 +120,9 @@ class StmtMixin:
                     self.path.obj_writes = []
                 self.path.obj_writes.append((base.term, t.attr, v))
                 return
+            if isinstance(base, ExcVal):
+                base.__dict__.setdefault('attrs', {})[t.attr] = v          # location attributes set on a caught exception object
+                return
             if not isinstance(base, VStruct):
                 raise Unsupported(f'attribute store on {type(base).__name__}')
             base.f[self.mangle(t.attr, fr)] = v
@@ -229,7 +232,11 @@ class StmtMixin:
         import importlib
         pkg = fr.module.__package__ if fr.module is not None else None
         m = importlib.import_module('.' * s.level + (s.module or ''), pkg) if s.level else importlib.import_module(s.module)
+        of = getattr(self.cur_contract, 'opaque_fns', None) or {}
+        ef = getattr(self.cur_contract, 'effects', None) or {}
         for a in s.names:
+            if (a.asname or a.name) in of or (a.asname or a.name) in ef:
+                continue          # declared opaque / an effect by the contract: the local import does not shadow that declaration
             fr.env[a.asname or a.name] = getattr(m, a.name)
 
     def ex_Global(self, s, fr):
@@ -515,9 +522,12 @@ class StmtMixin:
                     raise Unsupported(f'loop-modified concrete container {nm}: declare its sort in Loop.locals')
                 else:
                     fr.env[nm] = self.fresh_like(v, nm)
+        for g_ in list(getattr(p, 'gseq', None) or {}):
+            p.gseq[g_] = p.fresh(p.gseq[g_].sort(), g_)          # ghost sequences of effects: arbitrary at the loop head, constrained by the invariant
         if isinstance(p.yields, VBox) and any(isinstance(n_, (ast.Yield, ast.YieldFrom)) for n_ in ast.walk(s)):
             self.havoc_inplace(p.yields, '__yield__')
         havocked = {nm for nm in names - tnames if nm in lc.locals}
+        handler_names = {h.name for n_ in ast.walk(s) if isinstance(n_, ast.Try) for h in n_.handlers if h.name}
         for lv in lvals:
             root = lv
             # havoc the object the lvalue lives in
@@ -534,6 +544,8 @@ class StmtMixin:
                     elif isinstance(obj, PyList):
                         raise Unsupported(f'loop-mutated concrete list {lv.id}: declare its sort in Loop.locals')
                 elif isinstance(lv, ast.Attribute):
+                    if isinstance(lv.value, ast.Name) and lv.value.id not in fr.env and lv.value.id in handler_names:
+                        continue          # an attribute of the exception object bound by a handler inside the loop: born in the body
                     base = self.ev(lv.value, fr)
                     if isinstance(base, VStruct):
                         a = self.mangle(lv.attr, fr)
@@ -611,8 +623,22 @@ class StmtMixin:
                 f2 = Frame(None, state_env(i), fr.module, fr, cf.contract)
                 f2.extra = dict(self.contract_names(cf))
                 measure0 = self.ev_text_value(lc.decreases, f2)
+            ntrace0 = len(p.trace)
             try:
-                self.exec_block(s.body, fr)
+                try:
+                    self.exec_block(s.body, fr)
+                finally:
+                    cc_ = cf.contract
+                    evn_ = {str(e_[0]) for e_ in p.trace[ntrace0:]}
+                    def _touches(t_):
+                        if '__trace__' not in t_:
+                            return False
+                        # a clause that selects events by name and names none of the loop's events is not affected
+                        return 'e[0]' not in t_ or 'not in' in t_ or '!=' in t_.replace('!= 0', '') and "e[0] !=" in t_ or any(repr(n_) in t_ for n_ in evn_)
+                    if len(p.trace) > ntrace0 and any(_touches(t_) for t_ in list(cc_.ensures) + list(cc_.on_raise)):
+                        # the events of an arbitrary iteration are not the events of ALL iterations: a clause over the concrete
+                        # trace cannot be decided after a loop with an invariant — ghost_seqs is the sound way to speak about them
+                        raise Unsupported(f'loop {k} records effects and the contract has clauses over __trace__: use ghost_seqs')
             except ContinueSig:
                 pass
             except BreakSig:
